@@ -66,9 +66,13 @@ fn gen_file(r: &mut Rng, syn_values: bool) -> String {
     // every kind of value, `#null` included: it is an ordinary value, and a different later value conflicts with it
     let vals = ["1", "2", "\"x\"", "#true", "[1, 2]", "#null", "#null", "#false", "{1}"];
     let mut t = String::from("global ga\nglobal gb\n");
+    // attribute shorthands that expand to several attributes: a conflict in ANY of them fails the statement
+    t.push_str("attribute kw = x => k = x, w = x, tag = \"via-shorthand\"\nattribute wk = y => w = y, k = y\n");
     t.push_str("(module) @m {\n  let _u = @m\n");
     for _ in 0..r.range(1, 5) {
-        match r.below(7) {
+        match r.below(9) {
+            7 => t.push_str(&format!("  attr (ga) {} = {}\n", r.pick(&["kw", "wk"]), r.pick(&vals))),
+            8 => t.push_str(&format!("  edge ga -> gb\n  attr (ga -> gb) {} = {}\n", r.pick(&["kw", "wk"]), r.pick(&vals))),
             0 => t.push_str("  edge ga -> gb\n"),
             1 => t.push_str(&format!("  edge ga -> gb\n  attr (ga -> gb) {} = {}\n", r.pick(&keys), r.pick(&vals))),
             2 => t.push_str(&format!("  attr (ga) {} = {}\n", r.pick(&keys), r.pick(&vals))),
